@@ -177,9 +177,37 @@ func mustCID(b []byte) cid.Cid {
 // principals of a run
 type cast []Principal
 
+// lookAlike is the offset of principal indices that denote a key-less look-alike of
+// principal i-lookAlike: its did:key string differs from the original's only in the case
+// of one base58 letter (another key, nobody holds its private key; it can be an audience
+// or a subject, never an issuer).
+const lookAlike = 100
+
 func (c cast) did(i int) did.DID {
 	if i < 0 || len(c) == 0 {
 		return did.Undef
+	}
+	if i >= lookAlike {
+		orig := key(c[(i-lookAlike)%len(c)]).id
+		s := []byte(orig.String())
+		for k := len(s) - 1; k > len("did:key:z")+4; k-- {
+			ch := s[k]
+			var sw byte
+			switch {
+			case ch >= 'a' && ch <= 'z' && ch != 'o' && ch != 'i':
+				sw = ch - 32
+			case ch >= 'A' && ch <= 'Z' && ch != 'L':
+				sw = ch + 32
+			default:
+				continue
+			}
+			s[k] = sw
+			if d, err := did.Parse(string(s)); err == nil && d != orig {
+				return d
+			}
+			s[k] = ch
+		}
+		return orig
 	}
 	return key(c[i%len(c)]).id
 }
@@ -187,6 +215,9 @@ func (c cast) did(i int) did.DID {
 func (c cast) ent(i int) *keyEntry {
 	if i < 0 {
 		i = 0
+	}
+	if i >= lookAlike {
+		i -= lookAlike
 	}
 	return key(c[i%len(c)])
 }
